@@ -32,7 +32,7 @@ func TestDebugC14(t *testing.T) {
 			t.Logf("     code=%d log=%.80s", tr.Code, tr.Log)
 		}
 	}
-	c2, _ := sim.Replay(m.W, m.C.Blocks[:8], nil)
+	c2, _ := sim.Replay(m.W, m.C.Blocks[:4], nil)
 	ctx := c2.CommittedCtx()
 	vub, ok := c2.App.OracleKeeper.GetValidatorUpdateBlock(ctx)
 	t.Logf("validatorUpdateBlock=%v %v", vub, ok)
